@@ -501,6 +501,16 @@ func (s *sim) checkEnvelopeSignature(b *blockRec, pre *stateBox) {
 		s.viol("C14", "envelope-signature/honest-refused", fmt.Sprintf("block at slot %d (%s) signed under the version its slot implies does not verify through BeaconBlockEnvelope.VerifySignature", b.slot, forkName(b.post.st)))
 		return
 	}
+	// the signed header of the signed block: the block's root, the envelope's header and the signature
+	if sh, ok := b.signed.(interface {
+		SignedHeader(spec *common.Spec) *common.SignedBeaconBlockHeader
+	}); ok {
+		h := sh.SignedHeader(w.spec)
+		if h == nil || h.Message != b.env.BeaconBlockHeader || h.Signature != b.env.Signature || h.Message.HashTreeRoot(tree.GetHashFn()) != b.root {
+			s.viol("C14", "signed-header-of-block", fmt.Sprintf("block at slot %d (%s): SignedHeader() is %+v, the envelope holds header %+v", b.slot, forkName(b.post.st), h, b.env.BeaconBlockHeader))
+			return
+		}
+	}
 	fidx := w.forkIndexAt(w.epochOf(b.slot))
 	for f := 0; f < 5; f++ {
 		if w.versionOfFork(f) == w.versionOfFork(fidx) {
